@@ -47,7 +47,7 @@ LEARNER_TOL = 5e-14
 MIX_TOL = 1e-14
 LIVE_EPS = 1e-9          # a relabelled row counts as carrying weight when its exact weight exceeds this (not a tolerance)
 IDX_KINDS = ["default", "shuffled", "offset", "dup", "string"]
-PANDAS = ("ser", "ser_nn", "df", "df0")
+PANDAS = ("ser", "ser_nn", "ser_cat", "df", "df0")
 _COUNTER = itertools.count()
 
 
@@ -91,6 +91,9 @@ def vec(values, spec, name):
         return pd.Series(values, index=idx, name=name)
     if c == "ser_nn":
         return pd.Series(values, index=idx)
+    if c == "ser_cat":
+        # categorical dtype (seeded C12d: a dtype-specific shortcut that hands the caller's own Series on, index included)
+        return pd.Series(pd.Categorical(values), index=idx, name=name)
     if c == "df":
         return pd.DataFrame({name: values}, index=idx)
     if c == "df0":
@@ -753,7 +756,7 @@ class MomEntry(EPBase):
 
     def argdom(self, base):
         yd = ["list", "nd", "nd2", "ser", "df"]
-        d = {"X": ["nd", "df"], "y": yd, "sf": ["list", "nd", "nd2", "ser", "df"],
+        d = {"X": ["nd", "df"], "y": yd, "sf": ["list", "nd", "nd2", "ser", "ser_cat", "df"],
              "pred": ["nd", "nd2", "list", "ser", "ser_x"]}
         if base["c"] is not None:
             d["cf"] = ["list", "nd", "nd2", "ser", "df"]
@@ -1042,7 +1045,7 @@ class RedEntry(EPBase):
                     "lkind": rng.choice(["all", "all", "threshold"])}
 
     def argdom(self, base):
-        return {"X": ["nd", "df"], "y": ["list", "nd", "nd2", "ser", "df"], "sf": ["list", "nd", "nd2", "ser", "df"],
+        return {"X": ["nd", "df"], "y": ["list", "nd", "nd2", "ser", "df"], "sf": ["list", "nd", "nd2", "ser", "ser_cat", "df"],
                 "lout": ["nd", "ser_x"]}
 
     def baseline(self, base):
@@ -1288,8 +1291,8 @@ class TOEntry(EPBase):
         return c
 
     def argdom(self, base):
-        return {"X": ["nd", "df"], "y": ["list", "nd", "nd2", "ser", "df", "df0"], "sf": ["list", "nd", "nd2", "ser", "df"],
-                "sout": ["nd", "ser_x"], "pX": ["nd", "df"], "psf": ["list", "nd", "nd2", "ser", "df"]}
+        return {"X": ["nd", "df"], "y": ["list", "nd", "nd2", "ser", "df", "df0"], "sf": ["list", "nd", "nd2", "ser", "ser_cat", "df"],
+                "sout": ["nd", "ser_x"], "pX": ["nd", "df"], "psf": ["list", "nd", "nd2", "ser", "ser_cat", "df"]}
 
     def baseline(self, base):
         return {"X": sp("nd"), "y": sp("list"), "sf": sp("list"), "sout": sp("nd"), "pX": sp("nd"), "psf": sp("list")}
@@ -1489,8 +1492,8 @@ class RedCFEntry(EPBase):
 # and compared with (a) the Lean container model (`Model/Container.lean`, op `cont.place`) driven by the conversion
 # classes LIFTED from the source for these very sites (`Generated/ContainerSites.lean`), (b) the positional oracle.
 CONV_CODE = {"asarray": 0, "values": 1, "listOf": 2, "resetIndex": 3, "fresh": 4, "kind": 5, "raw": 6}
-KIND_CODE = {"list": 0, "nd": 1, "nd2": 1, "ser": 2, "ser_nn": 2, "df": 3, "df0": 3, "dict": 4}
-GUARD_OF = {"list": "list", "nd": "np.ndarray", "nd2": "np.ndarray", "ser": "pd.Series", "ser_nn": "pd.Series",
+KIND_CODE = {"list": 0, "nd": 1, "nd2": 1, "ser": 2, "ser_nn": 2, "ser_cat": 2, "df": 3, "df0": 3, "dict": 4}
+GUARD_OF = {"list": "list", "nd": "np.ndarray", "nd2": "np.ndarray", "ser": "pd.Series", "ser_nn": "pd.Series", "ser_cat": "pd.Series",
             "df": "pd.DataFrame", "df0": "pd.DataFrame"}
 _SITES = {}
 
